@@ -389,12 +389,13 @@ func init() {
 		Rule: "two kinds of cases. (a) (grammar, layout, K map-order schedules): for every run whose table yaccgo packs, the documented lookup (offset+symbol, bounds, check vector, default action / default goto) is evaluated for ALL (state, symbol) cells incl. column 0 (unknown tokens) and compared with the dense table of the same run. (b) batches of grammars compiled in the four Go variants: the full matrix is read through each variant's GENERATED Action() and compared with the dense table of the same run, and packed and -u parsers must give the same verdict, reductions, tokens requested and value on every input of the C01 input set. distinct_nontrivial = distinct packings (hash of the five packed vectors) + distinct grammars compiled.",
 		NumCases: func(ctx *Ctx) int { return c05batches(ctx) + autoCases(ctx, 5000, 40000) },
 		Gen: func(ctx *Ctx, i int) *Input {
-			if nb := c05batches(ctx); i < nb {
-				in := genB(ctx, i)
+			if isB, k := mixCases(c05batches(ctx), autoCases(ctx, 5000, 40000), i); isB {
+				in := genB(ctx, k)
+				in.Index = i
 				in.Variants = wl.GoVariants
 				return in
 			} else {
-				in := genA(ctx, i-nb)
+				in := genA(ctx, k)
 				in.Index = i
 				return in
 			}
